@@ -111,6 +111,16 @@ func (fv *FnV) doCall(st *State, ins ssa.Instruction, cc *ssa.CallCommon, pos to
 	}
 	fnv := fv.term(fv.val(cc.Value))
 	fv.safety(st, "nil", not(eq(fnv, "nil!ref")), pos)
+	if len(fv.lockSites) > 0 {
+		// a function value may be any code, also code that takes the mutex this function holds (or that waits for
+		// something that does): no mutex of this function is held across such a call
+		var free []string
+		for _, m := range fv.lockSites {
+			free = append(free, eq(sel(fv.heapGet(st, "G|held"), m), "0"))
+		}
+		fv.emit(st, "L", "no-relock:(function value)@"+fv.siteText(pos, "call"), fv.lockProps(), and(free...),
+			"no mutex of this function is held across a call through a function value (self-deadlock if what is called locks it)", pos)
+	}
 	if fv.k != nil {
 		for _, cl := range fv.k.CallAsserts["dynamic"] {
 			fv.hitAtCall(cl)
